@@ -58,17 +58,17 @@ func isST(t PmtStreamType) bool {
 }
 
 //@ func presentationLagsEbp(code uint8) bool
-//@   props C20
+//@   props C20 C05
 //@   ensures result == specLagsEbp(code)
 //@   modifies nothing
 
 //@ func newPmtStreamType(code uint8, description string, presentationLagsEbp bool) *pmtStreamType
-//@   props C20
+//@   props C20 C05
 //@   ensures result != nil && fresh(result) && result.code == code && result.description == description && result.presentationLagsEbp == presentationLagsEbp
 //@   modifies nothing
 
 //@ func LookupPmtStreamType(code uint8) PmtStreamType
-//@   props C20
+//@   props C20 C05
 //@   ensures isST(result) && stOf(result).code == code && len(stOf(result).description) > 0
 //@   ensures stOf(result).presentationLagsEbp == specLagsEbp(code)
 //@   modifies nothing
@@ -77,42 +77,42 @@ func isST(t PmtStreamType) bool {
 //@     decreases len(atscPmtStreamTypes) - rangeindex
 
 //@ func (st pmtStreamType) StreamType() uint8
-//@   props C20
+//@   props C20 C05
 //@   ensures result == st.code
 //@   modifies nothing
 
 //@ func (st pmtStreamType) StreamTypeDescription() string
-//@   props C20
+//@   props C20 C05
 //@   ensures result == st.description
 //@   modifies nothing
 
 //@ func (st pmtStreamType) IsStreamWherePresentationLagsEbp() bool
-//@   props C20
+//@   props C20 C05
 //@   ensures result == st.presentationLagsEbp
 //@   modifies nothing
 
 //@ func (st pmtStreamType) IsAudioContent() bool
-//@   props C20
+//@   props C20 C05
 //@   ensures result == (st.code == 0x0f || st.code == 0x81 || st.code == 0x87)
 //@   modifies nothing
 
 //@ func (st pmtStreamType) IsVideoContent() bool
-//@   props C20
+//@   props C20 C05
 //@   ensures result == (st.code == 0x02 || st.code == 0x1b || st.code == 0x24)
 //@   modifies nothing
 
 //@ func (st pmtStreamType) IsSCTE35Content() bool
-//@   props C20
+//@   props C20 C05
 //@   ensures result == (st.code == 0x86)
 //@   modifies nothing
 
 //@ func (st pmtStreamType) IsID3Content() bool
-//@   props C20
+//@   props C20 C05
 //@   ensures result == (st.code == 0x15)
 //@   modifies nothing
 
 //@ func (st pmtStreamType) IsPrivateContent() bool
-//@   props C20
+//@   props C20 C05
 //@   ensures result == (st.code == 0x06)
 //@   modifies nothing
 
@@ -137,7 +137,7 @@ func lemmaStreamTypes(code uint8) bool {
 // ---- descriptor decoders
 
 //@ func NewPmtDescriptor(tag uint8, data []byte) PmtDescriptor
-//@   props C20
+//@   props C20 C05
 //@   ensures descOf(result) != nil && fresh(descOf(result)) && descOf(result).tag == tag && len(descOf(result).data) == len(data) && (len(data) > 0 ==> &descOf(result).data[0] == &data[0])
 //@   modifies nothing
 
@@ -147,37 +147,37 @@ func descOf(d PmtDescriptor) *pmtDescriptor {
 }
 
 //@ func (descriptor *pmtDescriptor) Tag() uint8
-//@   props C20
+//@   props C20 C05
 //@   requires descriptor != nil
 //@   ensures result == descriptor.tag
 //@   modifies nothing
 
 //@ func (descriptor *pmtDescriptor) IsIso639LanguageDescriptor() bool
-//@   props C20
+//@   props C20 C05
 //@   requires descriptor != nil
 //@   ensures result == (descriptor.tag == 10)
 //@   modifies nothing
 
 //@ func (descriptor *pmtDescriptor) IsMaximumBitrateDescriptor() bool
-//@   props C20
+//@   props C20 C05
 //@   requires descriptor != nil
 //@   ensures result == (descriptor.tag == 14)
 //@   modifies nothing
 
 //@ func (descriptor *pmtDescriptor) IsEBPDescriptor() bool
-//@   props C20
+//@   props C20 C05
 //@   requires descriptor != nil
 //@   ensures result == (descriptor.tag == 233)
 //@   modifies nothing
 
 //@ func (descriptor *pmtDescriptor) IsTTMLSubtitlingDescriptor() bool
-//@   props C20
+//@   props C20 C05
 //@   requires descriptor != nil
 //@   ensures result == (descriptor.tag == 127)
 //@   modifies nothing
 
 //@ func (descriptor *pmtDescriptor) IsTTMLDescTagExtension() bool
-//@   props C20
+//@   props C20 C05
 //@   requires descriptor != nil
 //@   ensures result == (len(descriptor.data) >= 1 && descriptor.data[0] == 32)
 //@   modifies nothing
@@ -198,28 +198,28 @@ func descOf(d PmtDescriptor) *pmtDescriptor {
 //@   modifies nothing
 
 //@ func (descriptor *pmtDescriptor) DecodeIso639AudioType() byte
-//@   props C20
+//@   props C20 C05
 //@   requires descriptor != nil
 //@   ensures descriptor.tag == 10 && len(descriptor.data) >= 4 ==> result == descriptor.data[3]
 //@   ensures descriptor.tag != 10 ==> result == 0
 //@   modifies nothing
 
 //@ func (descriptor *pmtDescriptor) DecodeTTMLIso639LanguageCode() string
-//@   props C20
+//@   props C20 C05
 //@   requires descriptor != nil
 //@   ensures descriptor.tag == 127 && len(descriptor.data) >= 4 ==> len(result) == 3 && result[0] == descriptor.data[1] && result[1] == descriptor.data[2] && result[2] == descriptor.data[3]
 //@   ensures descriptor.tag != 127 ==> len(result) == 0
 //@   modifies nothing
 
 //@ func (descriptor *pmtDescriptor) DecodeTTMLSubtitlePurpose() uint8
-//@   props C20
+//@   props C20 C05
 //@   requires descriptor != nil
 //@   ensures descriptor.tag == 127 && len(descriptor.data) >= 5 ==> result == descriptor.data[4]/4
 //@   ensures descriptor.tag != 127 ==> result == 0xff
 //@   modifies nothing
 
 //@ func (descriptor *pmtDescriptor) IsDolbyVision() bool
-//@   props C20
+//@   props C20 C05
 //@   requires descriptor != nil
 //@   ensures result == (descriptor.tag == 5 && len(descriptor.data) >= 4 && descriptor.data[0] == 'D' && descriptor.data[1] == 'O' && descriptor.data[2] == 'V' && descriptor.data[3] == 'I')
 //@   modifies nothing
@@ -253,13 +253,13 @@ func specMBR(d *pmtDescriptor) uint64 {
 //@     decreases len(es.descriptors) - rangeindex
 
 //@ func (es *pmtElementaryStream) Descriptors() []PmtDescriptor
-//@   props C20
+//@   props C20 C05
 //@   requires es != nil
 //@   ensures len(result) == len(es.descriptors) && (len(result) > 0 ==> &result[0] == &es.descriptors[0])
 //@   modifies nothing
 
 //@ func (es *pmtElementaryStream) ElementaryPid() int
-//@   props C20
+//@   props C20 C05
 //@   requires es != nil
 //@   ensures result == es.elementaryPid
 //@   modifies nothing
@@ -380,7 +380,7 @@ func specMapIs(m map[int]int, p pat, n int) bool {
 //@   modifies nothing
 
 //@ func NewPAT(patBytes []byte) (x PAT, err error)
-//@   props C07
+//@   props C07 C05
 //@   ensures len(patBytes) < 13 ==> x == nil && err == gots.ErrInvalidPATLength
 //@   ensures len(patBytes) >= 13 && len(patBytes) != 188 ==> err == nil && isPat(x) && len(patOf(x)) == len(patBytes) && &patOf(x)[0] == &patBytes[0]
 //@   modifies nothing
